@@ -152,8 +152,8 @@ func TestLabContracts(t *testing.T) {
 		}
 	}
 	fmt.Println("convert status", status(b), "conversion etxs from the contract", nconv)
-	if nconv != 1 {
-		t.Fatalf("converter did not emit a conversion")
+	if nconv != 2 {
+		t.Fatalf("converter did not emit its two conversions")
 	}
 	if fp, msg := CheckHeadCommitment(n.Nodes[Zone]); fp != "" {
 		t.Fatalf("%s %s", fp, msg)
